@@ -102,7 +102,7 @@ PROPS = {
     },
     "C04": {
         "modules": ["C04"],
-        "streams": [{"name": "apply", "quick": 60, "thorough": 7200}, {"name": "exec", "quick": 500, "thorough": 30000}],
+        "streams": [{"name": "apply", "quick": 40, "thorough": 4800}, {"name": "cov", "quick": 50, "thorough": 4800}, {"name": "exec", "quick": 500, "thorough": 30000}],
         "projection": "status",
         "oracles": [],
         "assumptions": ["Ed25519 verification and blake3 are parameters: the model is given the answers the real executor obtained (hook log) and a missing answer is a disagreement"],
